@@ -434,6 +434,14 @@ class Interp:
             return list(it)
         if isinstance(it, str):
             return list(it)
+        if isinstance(it, W) and all(isinstance(x, (list, tuple)) for x in it.ex):
+            # lock-step sequences of one length: the sequence of lock-step items
+            if len({len(x) for x in it.ex}) != 1:
+                raise NonUniform(f"sequences of different lengths between spellings: {[len(x) for x in it.ex]}")
+            out = []
+            for items in zip(*it.ex):
+                out.append(items[0] if all(type(y) is type(items[0]) and y == items[0] for y in items[1:]) else W(list(items)))
+            return out
         if isinstance(it, W):
             raise LexUnknown("iteration over the characters of a word")
         if isinstance(it, (range, enumerate, zip, collections.abc.KeysView, collections.abc.ValuesView,
@@ -478,8 +486,17 @@ class Interp:
                     raise PyRaise(e)
             elif o is None:
                 raise PyRaise(TypeError("'NoneType' object does not support item assignment"))
+            elif isinstance(o, W) and all(isinstance(x, list) for x in o.ex):
+                # lock-step lists (e.g. the pieces of a split): assign exemplar by exemplar, in place
+                for i, x in enumerate(o.ex):
+                    try:
+                        x[k.ex[i] if isinstance(k, W) else k] = v.ex[i] if isinstance(v, W) else v
+                    except (IndexError, TypeError) as e:
+                        raise PyRaise(e)
+            elif isinstance(o, (str, int, float, tuple)) or isinstance(o, W) and all(isinstance(x, (str, int, float, tuple)) for x in o.ex):
+                raise PyRaise(TypeError(f"{type(o.ex[0] if isinstance(o, W) else o).__name__} does not support item assignment"))
             else:
-                raise PyRaise(TypeError(f"{type(o).__name__} does not support item assignment"))
+                raise LexUnknown(f"item assignment on {type(o).__name__}")
         else:
             raise LexUnknown(f"assignment target {type(t).__name__}")
 
@@ -697,6 +714,17 @@ class Interp:
         if isinstance(node, ast.Call) and ast.unparse(node.func) == "re.compile" and node.args and all(
                 isinstance(a, ast.Constant) for a in node.args) and not node.keywords:
             return ("regex", re.compile(*[a.value for a in node.args]))
+        # a module-level value computed from other module-level values (f-string, concatenation, tuple of names ...)
+        busy = self.__dict__.setdefault("_mv_busy", set())
+        key = (module.name, name)
+        if node is not None and key not in busy and not any(isinstance(n, (ast.Call, ast.Lambda, ast.Await, ast.Yield)) for n in ast.walk(node)
+                                                          if not (isinstance(n, ast.Call) and isinstance(n.func, ast.Attribute)
+                                                                  and n.func.attr in STR_METHODS | {"join"})):
+            busy.add(key)
+            try:
+                return self.ev(node, {"__module__": module})
+            finally:
+                busy.discard(key)
         raise LexUnknown(f"module-level value {module.name}.{name}")
 
     def attribute(self, e, env):
